@@ -1,6 +1,8 @@
 (* C18 -- Resource identity: merge precedence, mandatory keys, bounded attribute store.
    Property theorems only; each is closed by [exact] of a lemma from AttrsProofs.v. *)
 From Deep Require Import Base Attrs AttrsProofs.
+From DeepGen Require Import PStore.
+From Deep Require Import PureSupport TieStore.
 
 (* Every state reachable from any constructor call by ANY sequence of set/del/merge_in
    operations: never more than capacity, keys distinct, keys non-empty strings, every stored
@@ -120,3 +122,21 @@ Example C18_example :
   let s' := fst (set_item s (KStr [99]) (VPrim (PStr [120]))) in
   items s' = [([98], CP (CInt 2)); ([99], CP (CStr [120]))] /\ dropped s' = 1%nat.
 Proof. vm_compute. split; reflexivity. Qed.
+
+(* ---- tie by translation: BoundedAttributes.__setitem__ / __delitem__ as they are in /repo/src NOW (gen/PStore.v is
+   regenerated on every run) are the model's set_item / del_item for every store, key text and value *)
+Theorem C18_the_code_store_is_the_model :
+  forall s k v,
+  gen_setitem (option_map Z.of_nat (cap s)) (option_map Z.of_nat (vlimit s)) (immutable s) (items s) (Z.of_nat (dropped s)) k v =
+    (let '(s', o) := set_item s (KStr k) v in ((items s', Z.of_nat (dropped s')), o)) /\
+  gen_delitem (immutable s) (items s) k = (let '(s', o) := del_item s k in (items s', o)).
+Proof. intros. split; [apply tie_setitem | apply tie_delitem]. Qed.
+Print Assumptions C18_the_code_store_is_the_model.
+
+(* stated over the translated code: a set on a store within its capacity leaves it within its capacity *)
+Theorem C18_the_code_keeps_the_capacity :
+  forall (c : nat) vl it d k v it' d' o,
+  (length it <= c)%nat ->
+  gen_setitem (Some (Z.of_nat c)) vl false it d k v = ((it', d'), o) -> (length it' <= c)%nat.
+Proof. exact code_setitem_capacity. Qed.
+Print Assumptions C18_the_code_keeps_the_capacity.
